@@ -88,7 +88,7 @@ theorem AllClean.snoc {fam : List (SNode K V C)} (h : AllClean fam) {x} (hx : Cl
 
 
 /-- every zeroing / clearing / shifting statement of `btree.go` is present -/
-def ZeroingPresent : Prop :=
+abbrev ZeroingPresent : Prop :=
   TreeSlots.removeOneShifts = true ∧ TreeSlots.removeOneZeroesLast = true ∧
   TreeSlots.leafInsertBumpsN = true ∧
   TreeSlots.leafRemoveShiftsKeys = true ∧ TreeSlots.leafRemoveShiftsValues = true ∧ TreeSlots.leafRemoveDecN = true ∧
